@@ -60,7 +60,11 @@ def handleC14 : List String → String
       -- the dependency is registered under the module's path joined by `_` (collect_modules), wherever it lives
       let segs := modpath.splitOn "."
       let deps := [moduleExports ("_".intercalate segs) ds]
-      let rej := if form == "from" then rejectedNames deps ⟨.from_, segs, false, 0⟩ [item]
+      -- `… as alias`: the alias names the import locally; visibility is asked of the imported name
+      let alias : Option String := match form.splitOn "-" with
+        | [_, a] => some a
+        | _ => none
+      let rej := if form.startsWith "from" then rejectedItems deps ⟨.from_, segs, false, 0⟩ [⟨item, alias⟩]
                  else rejectedNames deps ⟨.module, segs ++ [item], false, 0⟩ []
       if rej.isEmpty then "accept" else "reject"
     | none => "bad-op")
